@@ -48,6 +48,12 @@ def one_step(c: Dict[str, Any]) -> Dict[str, Any]:
             uu.DepthSequential(*mods)
         elif how == "seq_dict":
             uu.DepthSequential(OrderedDict((f"l{i}", m) for i, m in enumerate(mods)))
+        elif how == "cloned_then_copied":     # the usual idiom: N clones of one block, then a copy of the model (EMA copy, per-run copy)
+            import copy as _copy
+
+            clones = [_copy.deepcopy(layer) for _ in range(depth)]
+            model = _copy.deepcopy(uu.DepthSequential(*clones))
+            layer = model[0]
         elif how == "list":
             uu.DepthModuleList(mods)
         else:
@@ -104,7 +110,7 @@ def gen_cases(rng: random.Random, n: int) -> List[Dict[str, Any]]:
                     "eta": 10 ** rng.uniform(-4, 0), "opt": rng.choice(["Adam", "AdamW"]),
                     "constraint": rng.choice(["default", "none"]), "seed": rng.randrange(1 << 30),
                     "form": rng.choice(["plain", "plain", "group_after", "group_before", "two_groups", "tensor_lr_group"]),
-                    "container": rng.choice(["seq_args", "seq_dict", "list", "generator"]), "allow": rng.random() < 0.3})
+                    "container": rng.choice(["seq_args", "seq_dict", "list", "generator", "cloned_then_copied"]), "allow": rng.random() < 0.3})
     return out
 
 
